@@ -102,7 +102,7 @@ func newTruth(chained bool, n int) *truth {
 		t.other = append(t.other, thresholdSign(sch, opub, oshares, thr, nodes, msg))
 	}
 	for r := 0; r <= n; r++ {
-		for tag := byte(0); tag <= 3; tag++ {
+		for tag := byte(0); tag <= 4; tag++ {
 			s := []byte{tag, byte(r)}
 			if real := t.real(s); real != nil {
 				t.toSym[string(real)] = s
@@ -137,8 +137,10 @@ func (t *truth) real(s []byte) []byte {
 			return flipped(t.sigs[r])
 		case r >= 1 && r < len(t.sigs) && s[0] == 3:
 			return t.other[r]
+		case r >= 1 && r < len(t.sigs) && s[0] == 4: // the torn record of round r: the first half of its signature
+			return t.sigs[r][:len(t.sigs[r])/2]
 		}
-		if s[0] <= 3 {
+		if s[0] <= 4 {
 			return nil
 		}
 	}
@@ -993,6 +995,50 @@ func syncEngine(args []string, in *bufio.Scanner, out *bufio.Writer) {
 					return "err:" + err.Error()
 				}
 				return "ok"
+			case "tear": // tear r: only the first half of the record of round r reached the disk (raw bbolt write under its key)
+				r := parseU(f[1])
+				key := chain.RoundToBytes(r)
+				v, err := boltdb.VerifRawGet(s.raw, key)
+				if err != nil {
+					return "err:" + err.Error()
+				}
+				if v == nil {
+					return "none"
+				}
+				half := v[:len(v)/2]
+				if boltdb.VerifIsTrimmed(s.raw) {
+					// the value is the signature itself; keep the symbolic name of what is left of it
+					half = s.t.real([]byte{4, byte(r)})
+					if half == nil {
+						return "none"
+					}
+				}
+				if err := boltdb.VerifRawPut(s.raw, key, half); err != nil {
+					return "err:" + err.Error()
+				}
+				return "ok"
+			case "relabel": // relabel r j: the round written inside the (JSON) record of round r becomes j
+				if boltdb.VerifIsTrimmed(s.raw) {
+					return "unsupported"
+				}
+				key := chain.RoundToBytes(parseU(f[1]))
+				v, err := boltdb.VerifRawGet(s.raw, key)
+				if err != nil {
+					return "err:" + err.Error()
+				}
+				b := &common.Beacon{}
+				if v == nil || b.Unmarshal(v) != nil {
+					return "none"
+				}
+				b.Round = parseU(f[2])
+				nv, err := b.Marshal()
+				if err != nil {
+					return "err:" + err.Error()
+				}
+				if err := boltdb.VerifRawPut(s.raw, key, nv); err != nil {
+					return "err:" + err.Error()
+				}
+				return "ok"
 			case "del":
 				if err := s.raw.Del(s.ctx, parseU(f[1])); err != nil {
 					return "err:" + err.Error()
@@ -1007,7 +1053,11 @@ func syncEngine(args []string, in *bufio.Scanner, out *bufio.Writer) {
 					if err != nil {
 						continue
 					}
-					xs = append(xs, fmt.Sprintf("%d:%s:%s", b.Round, s.t.sym(b.Signature), s.t.sym(b.PreviousSig)))
+					lab := strconv.FormatUint(r, 10)
+					if b.Round != r {
+						lab += "=" + strconv.FormatUint(b.Round, 10)
+					}
+					xs = append(xs, fmt.Sprintf("%s:%s:%s", lab, s.t.sym(b.Signature), s.t.sym(b.PreviousSig)))
 				}
 				body := "-"
 				if len(xs) > 0 {
